@@ -304,12 +304,19 @@ def gen_ed(repo):
                '   (possibly never assigned) loop variables? *)\n'
                f'Definition lev_returns_loop_var_cell : bool := {stale}.\n')
     adj = recognise('LeafNode.edits', strip_doc(find_func(gg, 'LeafNode.edits')),
-                    [(LEAF_EDITS % '        return Match(self, node, levenshtein_distance(str(self.object), str(node.object)))', 'false'),
+                    [(LEAF_EDITS % '        return Match(self, node, levenshtein_distance(str(self.object), str(node.object)))', 'false false'),
                      (LEAF_EDITS % ('        cost = levenshtein_distance(str(self.object), str(node.object))\n'
                                     '        if cost == 0 and self != node:\n            cost = 1\n'
-                                    '        return Match(self, node, cost)'), 'true')])
+                                    '        return Match(self, node, cost)'), 'true false'),
+                     (LEAF_EDITS % ('        cost = levenshtein_distance(str(self.object), str(node.object))\n'
+                                    '        if cost == 0 and self != node:\n            cost = 1\n'
+                                    '        cost = min(cost, max(self.total_size, node.total_size) + 1)\n'
+                                    '        return Match(self, node, cost)'), 'true true')])
+    adj, capped = adj.split()
     out.append('(* LeafNode.edits: is a zero distance between unequal leaves raised to 1? *)\n'
                f'Definition leaf_zero_cost_adjusted : bool := {adj}.\n')
+    out.append('(* LeafNode.edits: is the cost of matching two leaves capped by the cost of replacing one with the other? *)\n'
+               f'Definition leaf_match_cost_capped : bool := {capped}.\n')
     actual = recognise('MultiSetEdit.bounds', strip_doc(find_func(ms, 'MultiSetEdit.bounds')),
                        [(MULTISET_BOUNDS_OLD, 'false'), (MULTISET_BOUNDS_NEW, 'true')])
     out.append('(* MultiSetEdit.bounds once matched: cost of the ACTUAL unmatched nodes (true) or of the costliest ones (false) *)\n'
